@@ -9,9 +9,41 @@ HERE = os.path.dirname(os.path.dirname(os.path.abspath(__file__)))
 T = {}
 
 
+# clauses added after the first version of a check (see DESIGN.md 7.1)
+LATER = {
+    "C02": " Later clauses: 'scale' (machines of 16-64 chips on a side, "
+           "chains of 500-5400 vertices) and 'no-working-chip'.",
+    "C03": " Later: a 'dead-links' clause (10-30% one-way dead links), a "
+           "'broadcast' clause (nets of 20-80 sinks, small radii), caller-"
+           "named core resources, and faults recorded on the Machine object "
+           "only after a first route() call.",
+    "C04": " Later: chips with near-identical tables, and a 'sequence' clause "
+           "(tables of one key space minimised one after another) that runs "
+           "every case in a fresh-state child (vf/isolate.py).",
+    "C05": " Later: a 'sequence' clause (several allocate calls in one "
+           "process, fresh-state child per case) and quantities beyond 2**53.",
+    "C07": " Later: an 'own-struct-file' clause (struct definitions of the "
+           "caller's own with decimal/hexadecimal numbers).",
+    "C10": " Later: a 'thousand-hops' clause (a route through every chip of "
+           "a mesh of more than a thousand chips).",
+    "C12": " Later: a 'tree-in-rounds' clause (one RegionCoreTree read "
+           "between rounds of add_core) and requests confined to the corner "
+           "at the origin.",
+    "C17": " Later: fresh state comes from a fork server (2000 probes per "
+           "quick run), order lists and alias dicts are fingerprinted, and an "
+           "'edited-machine' clause compares a Machine edited in place after "
+           "routing with one built afresh.",
+    "C18": " Later: root chips other than (0,0), a machine discovered twice "
+           "at different widths, explicit initial contexts, blocks left by "
+           "KeyboardInterrupt/SystemExit, lists of boards.",
+    "C20": " Later: every history runs in a fresh-state child; refused "
+           "sends; option names the boot sets itself; re-used image files.",
+}
+
+
 def add(pid, built, category, technique, text, note, ref):
     T[pid] = dict(built=built, category=category, technique=technique,
-                  text=text, note=note, ref=ref)
+                  text=text + LATER.get(pid, ""), note=note, ref=ref)
 
 
 add("C19", True, "exploration",
